@@ -78,6 +78,10 @@ L2_REPMUT_WF = [RP + n for n in ["wf_add", "wf_remove", "wf_addRange", "wf_remov
                                  "wf_iandNot", "wf_runOptimize"]]
 L2_XFORM = [RP + n for n in ["toBSet_addOffset64", "wf_addOffset64", "toBSet_flipStatic", "wf_flipStatic", "testBit_toDense",
                              "length_toDense", "toBSet_fromDense", "wf_fromDense", "toBSet_fromDense_toDense"]]
+R64 = "RModel.Impl.Rep64."
+L2_R64 = ["RModel.Impl.mem_rep64"] + [R64 + n for n in ["toBSet_and2", "toBSet_or2", "toBSet_xor2", "toBSet_andNot2", "wf_and2", "wf_or2", "wf_xor2",
+          "wf_andNot2", "toBSet_flip", "toBSet_sflip", "toBSet_addRange", "toBSet_removeRange", "toBSet_ixor",
+          "toBSet_flip_viaStatic", "toBSet_addRange_viaStatic"]]
 L1_XFORM = ["RModel.BSet.mem_shift", "RModel.BSet.canon_shift", "RModel.BSet.mem_flipRange", "RModel.BSet.canon_xor"]
 
 PROPS = {
@@ -159,9 +163,9 @@ PROPS = {
             "modules": DEFAULT_MODULES + ["RProofs.RepXform"],
             "owns": {"off", "off32", "sflip", "eq", "dense", "fromdense", "frombitset", "densechk", "dig",
                      "zdense", "zfromdense", "safe", "digall", "zdetach", "zsame", "l2off", "l2sflip", "l2dense", "l2fromdense"}},
-    "C17": {"suites": [("r64", 1.0)], "theorems": L1_ALGEBRA + L1_MUT[:5] + L1_QUERY[:9] + L1_NBR[:4] +
-            ["RModel.Facts.r64Highbits_spec", "RModel.Facts.r64Lowbits_spec"],
-            "modules": DEFAULT_MODULES + ["RProofs.Facts.Bits"], "owns": None},
+    "C17": {"suites": [("r64", 1.0), ("l2r64", 0.6)], "theorems": L1_ALGEBRA + L1_MUT[:5] + L1_QUERY[:9] + L1_NBR[:4] +
+            ["RModel.Facts.r64Highbits_spec", "RModel.Facts.r64Lowbits_spec"] + L2_R64,
+            "modules": DEFAULT_MODULES + ["RProofs.Facts.Bits", "RProofs.Rep64", "RProofs.Rep64Range", "RProofs.Rep64InPlace", "RProofs.Rep64Witness"], "owns": None},
     "C18": {"suites": [("ser64", 1.0)], "theorems": ["RModel.BSet.canon_ext", "RModel.Facts.r64_cookies_spec",
                                                      "RModel.Impl.decode_encode", "RModel.Impl.prefix_rejected", "RModel.Impl.decode_no_panic"],
             "modules": DEFAULT_MODULES + [FACTS, "RProofs.Properties.C05"], "owns": None},
